@@ -75,7 +75,9 @@ class Gateway:
 
     @classmethod
     def from_json(cls, json_string: str):
-        return Gateway(Labels.from_json(json_string))
+        lab = Labels.from_json(json_string)
+        # nothing encoded - no gateway
+        return Gateway(lab) if lab is not None else None
 
     def __str__(self):
         ar = list()
